@@ -4,7 +4,9 @@ import (
 	"fmt"
 	"strings"
 
+	"utilcheck/flow"
 	"utilcheck/lang"
+	"utilcheck/pred"
 )
 
 func init() {
@@ -47,6 +49,13 @@ const semverOrgRegexp = `^(0|[1-9]\d*)\.(0|[1-9]\d*)\.(0|[1-9]\d*)(?:-((?:0|[1-9
 
 func runC03(e *Env) {
 	ruleC03Lang(e)
+	ruleC03Gate(e)
+	ruleC03Skel(e)
+	ruleC03ValidTable(e)
+	e.S.Floor("C03.gate", 10)
+	e.S.Floor("C03.num", 8)
+	e.S.Floor("C03.skel", 8)
+	e.S.Floor("C03.valid", 8)
 	ruleErrZero(e, "C03.errzero", "sem")
 	ruleWrap(e, "C03.wrap", "sem")
 	ruleLimit(e, "C03.limit", "sem")
@@ -122,4 +131,402 @@ func ruleC03Lang(e *Env) {
 		e.langEqual("C03.valid", "sem.build", "language", sp, ds[i], capD[4], "sem.build", "capture 5 of sem.pattern")
 	}
 	_ = strings.Join
+}
+
+// semErrKind classifies the error of a sem parser function.
+func semErrKind(v pred.Val) string {
+	switch x := v.(type) {
+	case pred.Const:
+		if x.V == nil {
+			return "nil"
+		}
+	case pred.Sym:
+		return strings.TrimPrefix(x.Name, "*sem.")
+	case pred.Iface:
+		if p, ok := x.V.(pred.Ptr); ok && p.Cell != nil {
+			if s, ok := p.Cell.V.(*pred.StructV); ok && len(s.Fields) == 3 {
+				in := "input"
+				if s.Fields[1].String() != "input" && !strings.HasPrefix(s.Fields[1].String(), "slice[1:](input") {
+					in = s.Fields[1].String()
+				}
+				_ = in
+				return "ParseError(" + semErrKind(s.Fields[2]) + ")"
+			}
+		}
+	case pred.Term:
+		if strings.HasPrefix(x.Fn, "fmt.Errorf") && len(x.Args) > 1 {
+			if sv, ok := x.Args[1].(*pred.SliceV); ok && len(sv.Elems) > 0 {
+				return "wrap(" + semErrKind(sv.Elems[0].V) + ")"
+			}
+		}
+	}
+	return v.String()
+}
+
+func ruleBitsKey(sym string) func(a, b pred.Val) (string, bool) {
+	return func(a, b pred.Val) (string, bool) {
+		c, ok := b.(pred.Const)
+		if !ok || c.V == nil || c.V.ExactString() != "0" {
+			return "", false
+		}
+		bits, ok := a.(pred.Bits)
+		if !ok {
+			return "", false
+		}
+		var idx []string
+		for i, bit := range bits.B {
+			switch bit.K {
+			case 's':
+				if bit.Sym != sym || bit.Idx != i {
+					return "", false
+				}
+				idx = append(idx, fmt.Sprint(i))
+			case '0':
+			default:
+				return "", false
+			}
+		}
+		return sym + "&bits(" + strings.Join(idx, ",") + ")", true
+	}
+}
+
+// ruleC03Gate: decision table of sem.unmarshalText (tag gate, numeric components, captures) and the entry points.
+func ruleC03Gate(e *Env) {
+	const rule = "C03.gate"
+	ut := e.Fn(rule, "sem", "unmarshalText")
+	if ut == nil {
+		return
+	}
+	site := flow.FnName(ut)
+	fTag, ok1 := tabConstInt(e, "sem", "formTag")
+	fVer, ok2 := tabConstInt(e, "sem", "formVersion")
+	if !ok1 || !ok2 || bitIndex(fTag) < 0 || bitIndex(fVer) < 0 || fTag == fVer {
+		e.S.Unk(rule, site, "forms", "formTag/formVersion are not two distinct single-bit constants", e.Pos(ut))
+		return
+	}
+	kTag, kVer := fmt.Sprintf("f&bits(%d)", bitIndex(fTag)), fmt.Sprintf("f&bits(%d)", bitIndex(fVer))
+	bitsKey := ruleBitsKey("f")
+	keyOf := func(a, b pred.Val) (string, bool) {
+		if k, ok := bitsKey(a, b); ok {
+			return k, true
+		}
+		if c, ok := b.(pred.Const); ok && c.V != nil {
+			if el, ok := a.(pred.Elem); ok && el.Base.String() == "input" && el.Index.String() == "0" {
+				return "input[0]==" + c.V.ExactString(), true
+			}
+		}
+		return errKeyOf(a, b)
+	}
+	fixed := func(a, b pred.Val) (int, bool, bool) {
+		as, bs := a.String(), b.String()
+		switch {
+		case as == "len(input)" && bs == "0":
+			return 1, true, true
+		case as == "*sem.MaxInputLength" && bs == "0":
+			return 0, true, true
+		case strings.HasPrefix(as, "len((*regexp.Regexp).FindSubmatch(") && bs == "0":
+			return 1, true, true
+		}
+		return 0, false, false
+	}
+	mk := func() []pred.Val {
+		return []pred.Val{pred.Sym{Name: "fn"}, pred.Sym{Name: "input"}, pred.Sym{Name: "f"}}
+	}
+	leaves, err := extractTree(e.P.SSA, ut, mk, nil, fixed, keyOf, binDomain)
+	if err != nil {
+		e.S.Unk(rule, site, "table", err.Error(), e.Pos(ut))
+		return
+	}
+	sentinels := []string{"", "ErrInvalidMajor", "ErrInvalidMinor", "ErrInvalidPatch"}
+	fieldNames := []string{"Major", "Minor", "Patch", "PreRelease", "Build"}
+	for _, lf := range leaves {
+		construct := lf.String()
+		if lf.Err != nil {
+			e.S.Unk(rule, site, construct, lf.Err.Error(), e.Pos(ut))
+			continue
+		}
+		t, ok := lf.Out.Ret.(pred.Tuple)
+		if !ok || len(t) != 2 {
+			e.S.Unk(rule, site, construct, lf.Out.Ret.String(), e.Pos(ut))
+			continue
+		}
+		get := func(k string) int {
+			v, ok := lf.Assign[k]
+			if !ok {
+				return 2
+			}
+			if v == 0 {
+				return 1
+			}
+			return 0
+		}
+		isV := get("input[0]==118")
+		errk := semErrKind(t[1])
+		// which subject the pattern is applied to
+		subject := "input"
+		if isV == 1 {
+			subject = "slice[1:](input)"
+		}
+		parseErr := func(k int) string {
+			return fmt.Sprintf("nil? strconv.ParseUint#1((*regexp.Regexp).FindSubmatch(*sem.pattern,%s)[%d],10,64)", subject, k)
+		}
+		want := "?"
+		switch {
+		case isV == 1 && get(kTag) == 1: // masked == 0 ⇒ tag form not allowed
+			want = "ParseError(ErrTagFormNotAllowed)"
+		case isV == 0 && get(kVer) == 1:
+			want = "ParseError(ErrExpectedTagForm)"
+		case isV != 2 && (isV == 1 && get(kTag) == 0 || isV == 0 && get(kVer) == 0):
+			want = "nil"
+			for k := 1; k <= 3; k++ {
+				v := get(parseErr(k))
+				if v == 0 { // not nil ⇒ number too large
+					want = "ParseError(" + sentinels[k] + ")"
+					break
+				}
+				if v == 2 {
+					want = "?"
+					break
+				}
+			}
+		}
+		switch {
+		case want == "?":
+			e.S.Bad(rule, site, construct, "outcome "+errk+" is decided without the tests the documented gate needs (first byte 'v', allowed forms, the three numeric conversions)", e.Pos(ut), "")
+			continue
+		case errk != want:
+			e.S.Bad(rule, site, construct, "error "+errk+", documented "+want, e.Pos(ut), "")
+			continue
+		}
+		if want != "nil" {
+			if sv, ok := t[0].(*pred.StructV); !ok || !allZero(sv) {
+				e.S.Bad(rule, site, construct, "a non-zero value "+t[0].String()+" is returned with the error", e.Pos(ut), "")
+			} else {
+				e.S.Ok(rule, site, construct, "error "+want+", zero value", e.Pos(ut))
+			}
+			continue
+		}
+		e.S.Ok(rule, site, construct, "accepted", e.Pos(ut))
+		// C03.num: the success value
+		sv, ok := t[0].(*pred.StructV)
+		if !ok || len(sv.Fields) != 5 {
+			e.S.Unk("C03.num", site, construct, "success value "+t[0].String()+" is not a Ver", e.Pos(ut))
+			continue
+		}
+		for i, f := range sv.Fields {
+			cap := fmt.Sprintf("(*regexp.Regexp).FindSubmatch(*sem.pattern,%s)[%d]", subject, i+1)
+			wantF := cap
+			if i < 3 {
+				wantF = "strconv.ParseUint#0(" + cap + ",10,64)"
+			}
+			c2 := fmt.Sprintf("%s (%s)", fieldNames[i], subject)
+			if f.String() == wantF {
+				e.S.Ok("C03.num", site, c2, fieldNames[i]+" = "+map[bool]string{true: "ParseUint(capture, 10, 64)", false: "string(capture)"}[i < 3]+fmt.Sprintf(" of capture %d", i+1), e.Pos(ut))
+			} else {
+				e.S.Bad("C03.num", site, c2, fmt.Sprintf("%s = %s, documented %s", fieldNames[i], f, wantF), e.Pos(ut), "")
+			}
+		}
+	}
+	// entry points
+	sums := map[string]pred.Summary{ut.String(): func(ev *pred.Evaluator, args []pred.Val) (pred.Val, error) {
+		return pred.Term{Fn: "unmarshalText", Args: args[1:]}, nil
+	}}
+	both := fVer | fTag
+	for _, en := range []struct {
+		name string
+		want string
+	}{{"Parse", fmt.Sprint(both)}, {"ParseVersion", fmt.Sprint(fVer)}, {"ParseTag", fmt.Sprint(fTag)}} {
+		fn := e.Fn(rule, "sem", en.name)
+		if fn == nil {
+			continue
+		}
+		ev := &pred.Evaluator{Prog: e.P.SSA, Oracle: noOracle{}, Summaries: sums}
+		out, err := ev.Eval(fn, []pred.Val{pred.Sym{Name: "input"}})
+		wantS := fmt.Sprintf("(unmarshalText#0(input,%s), unmarshalText#1(input,%s))", en.want, en.want)
+		switch {
+		case err != nil:
+			e.S.Unk(rule, flow.FnName(fn), "forms", err.Error(), e.Pos(fn))
+		case out.Ret.String() != wantS:
+			e.S.Bad(rule, flow.FnName(fn), "forms", en.name+" returns "+out.Ret.String()+"; documented: unmarshalText(input, forms="+en.want+")", e.Pos(fn), "")
+		default:
+			e.S.Ok(rule, flow.FnName(fn), "forms", "parses the whole input with form set "+en.want, e.Pos(fn))
+		}
+	}
+	if fn := e.Fn(rule, "sem", "DefaultParser"); fn != nil {
+		bit, _ := tabConstInt(e, "sem", "RuleDisableTag")
+		rk := ruleBitsKey("r")
+		leaves, err := extractTree(e.P.SSA, fn, func() []pred.Val { return []pred.Val{pred.Sym{Name: "input"}, pred.Sym{Name: "r"}} }, sums, nil, rk, binDomain)
+		if err != nil {
+			e.S.Unk(rule, flow.FnName(fn), "forms", err.Error(), e.Pos(fn))
+		}
+		for _, lf := range leaves {
+			if lf.Err != nil {
+				e.S.Unk(rule, flow.FnName(fn), "forms {"+lf.String()+"}", lf.Err.Error(), e.Pos(fn))
+				continue
+			}
+			v, asked := lf.Assign[fmt.Sprintf("r&bits(%d)", bitIndex(bit))]
+			want := fmt.Sprint(both)
+			if asked && v == 1 { // masked != 0 ⇒ tag disabled
+				want = fmt.Sprint(fVer)
+			}
+			wantS := fmt.Sprintf("(unmarshalText#0(input,%s), unmarshalText#1(input,%s))", want, want)
+			if !asked || lf.Out.Ret.String() != wantS {
+				e.S.Bad(rule, flow.FnName(fn), "forms {"+lf.String()+"}", "returns "+lf.Out.Ret.String()+"; documented: version and tag forms unless RuleDisableTag, then version only", e.Pos(fn), "")
+			} else {
+				e.S.Ok(rule, flow.FnName(fn), "forms {"+lf.String()+"}", "form set "+want, e.Pos(fn))
+			}
+		}
+	}
+}
+
+func allZero(s *pred.StructV) bool {
+	for _, f := range s.Fields {
+		switch x := f.(type) {
+		case pred.Const:
+			if x.V != nil && !(x.V.ExactString() == "0" || x.V.ExactString() == `""`) {
+				return false
+			}
+		default:
+			return false
+		}
+	}
+	return true
+}
+
+// ruleC03Skel: the formatter's append sequence.
+func ruleC03Skel(e *Env) {
+	const rule = "C03.skel"
+	fn := e.Fn(rule, "sem", "DefaultFormatter")
+	sp := e.P.ByName["sem"]
+	if fn == nil || sp == nil || sp.Type("Ver") == nil {
+		return
+	}
+	site := flow.FnName(fn)
+	verT := sp.Type("Ver").Type()
+	tag, _ := tabConstInt(e, "sem", "FormatTag")
+	bitsKey := ruleBitsKey("f")
+	keyOf := func(a, b pred.Val) (string, bool) {
+		if k, ok := bitsKey(a, b); ok {
+			return k, true
+		}
+		if c, ok := b.(pred.Const); ok && c.V != nil && c.V.ExactString() == `""` {
+			if s, ok := a.(pred.Sym); ok {
+				return s.Name + `==""`, true
+			}
+		}
+		return "", false
+	}
+	mk := func() []pred.Val { return []pred.Val{pred.Sym{Name: "buf"}, symStruct(verT, "v"), pred.Sym{Name: "f"}} }
+	leaves, err := extractTree(e.P.SSA, fn, mk, nil, nil, keyOf, binDomain)
+	if err != nil {
+		e.S.Unk(rule, site, "table", err.Error(), e.Pos(fn))
+		return
+	}
+	kTag := fmt.Sprintf("f&bits(%d)", bitIndex(tag))
+	for _, lf := range leaves {
+		construct := lf.String()
+		if lf.Err != nil {
+			e.S.Unk(rule, site, construct, lf.Err.Error(), e.Pos(fn))
+			continue
+		}
+		t, ok := lf.Out.Ret.(pred.Tuple)
+		if !ok || len(t) != 2 || t[1].String() != "nil" {
+			e.S.Bad(rule, site, construct, "the formatter does not return (bytes, nil): "+lf.Out.Ret.String(), e.Pos(fn), "")
+			continue
+		}
+		sg, ok := segs(t[0])
+		if !ok {
+			e.S.Unk(rule, site, construct, "result "+t[0].String()+" is not an append chain", e.Pos(fn))
+			continue
+		}
+		want := "<buf>"
+		if v, asked := lf.Assign[kTag]; asked && v == 1 {
+			want += "v"
+		}
+		want += "<uint v.Major>.<uint v.Minor>.<uint v.Patch>"
+		if v, asked := lf.Assign[`v.PreRelease==""`]; asked && v == 1 {
+			want += "-<v.PreRelease>"
+		}
+		if v, asked := lf.Assign[`v.Build==""`]; asked && v == 1 {
+			want += "+<v.Build>"
+		}
+		_, a1 := lf.Assign[kTag]
+		_, a2 := lf.Assign[`v.PreRelease==""`]
+		_, a3 := lf.Assign[`v.Build==""`]
+		got := strings.Join(sg, "")
+		switch {
+		case !a1 || !a2 || !a3:
+			e.S.Bad(rule, site, construct, "the formatter does not consult FormatTag and the emptiness of PreRelease and Build (got "+got+")", e.Pos(fn), "")
+		case got != want:
+			e.S.Bad(rule, site, construct, "emits "+got+", the grammar's skeleton for this case is "+want, e.Pos(fn), "")
+		default:
+			e.S.Ok(rule, site, construct, "emits "+want, e.Pos(fn))
+		}
+	}
+}
+
+// ruleC03ValidTable: Ver.Valid as a decision table.
+func ruleC03ValidTable(e *Env) {
+	const rule = "C03.valid"
+	fn := e.Method(rule, "sem", "Ver", "Valid")
+	sp := e.P.ByName["sem"]
+	if fn == nil || sp == nil {
+		return
+	}
+	site := flow.FnName(fn)
+	verT := sp.Type("Ver").Type()
+	keyOf := func(a, b pred.Val) (string, bool) {
+		if c, ok := b.(pred.Const); ok && c.V != nil {
+			if s, ok := a.(pred.Sym); ok && c.V.ExactString() == `""` {
+				return s.Name + `==""`, true
+			}
+			if t, ok := a.(pred.Term); ok && strings.HasPrefix(t.Fn, "(*regexp.Regexp).Match") && c.V.ExactString() == "true" {
+				return t.String(), true
+			}
+		}
+		return "", false
+	}
+	leaves, err := extractTree(e.P.SSA, fn, func() []pred.Val { return []pred.Val{symStruct(verT, "v")} }, nil, nil, keyOf, binDomain)
+	if err != nil {
+		e.S.Unk(rule, site, "table", err.Error(), e.Pos(fn))
+		return
+	}
+	mPre, mBuild := "(*regexp.Regexp).MatchString(*sem.preRelease,v.PreRelease)", "(*regexp.Regexp).MatchString(*sem.build,v.Build)"
+	for _, lf := range leaves {
+		construct := lf.String()
+		if lf.Err != nil {
+			e.S.Unk(rule, site, construct, lf.Err.Error(), e.Pos(fn))
+			continue
+		}
+		get := func(k string) int {
+			v, ok := lf.Assign[k]
+			if !ok {
+				return 2
+			}
+			if v == 0 {
+				return 1
+			}
+			return 0
+		}
+		preEmpty, preOK := get(`v.PreRelease==""`), get(mPre)
+		bEmpty, bOK := get(`v.Build==""`), get(mBuild)
+		want := "?"
+		switch {
+		case preEmpty == 0 && preOK == 0:
+			want = "wrap(ErrInvalidPreRelease)"
+		case (preEmpty == 1 || preEmpty == 0 && preOK == 1) && bEmpty == 0 && bOK == 0:
+			want = "wrap(ErrInvalidBuild)"
+		case (preEmpty == 1 || preEmpty == 0 && preOK == 1) && (bEmpty == 1 || bEmpty == 0 && bOK == 1):
+			want = "nil"
+		}
+		got := semErrKind(lf.Out.Ret)
+		switch {
+		case want == "?":
+			e.S.Bad(rule, site, construct, "Valid decides ("+got+") without matching the non-empty field against its own pattern (preRelease for PreRelease, build for Build)", e.Pos(fn), "")
+		case got != want:
+			e.S.Bad(rule, site, construct, "returns "+got+", documented "+want, e.Pos(fn), "")
+		default:
+			e.S.Ok(rule, site, construct, "returns "+want, e.Pos(fn))
+		}
+	}
 }
